@@ -23,6 +23,7 @@ EXPLANATION = (
     "evaluation result, carrying the answer term in the position of the `term` parameter and Constant(<probability>) in the position of the `prob` "
     "parameter, and the evaluation result is not re-bound (filtered, rounded) between evaluate() and the return; Y5 the registered arities of subquery / subquery_in_scope match the parameter lists (2,3,5 and 3,4,6: goal+prob, +evidence, "
     "+semiring+evaluator) and each arity's call-mode pattern has that length."
+    " Added after seed round 8: Y6 ground() names a goal without answers FALSE and a negated goal without answers TRUE under its negated name."
 )
 TECHNIQUE = "static analysis: pipeline-wiring rules (def-use of the target formula, keyword/parameter agreement, sibling agreement)"
 LEVEL_TEXT = EXPLANATION
